@@ -1,7 +1,8 @@
 #!/bin/bash
-# usage: vf/seedrun.sh <patch.diff> <property> [tier]   -- applies a seeded change to /repo, runs the check, reverts.
-P=$1; ID=$2; TIER=${3:-quick}
-cd /repo && git diff --quiet || { echo "/repo not clean"; exit 3; }
-git -C /repo apply "$P" || exit 3
-cd /verif && ./check $ID --tier $TIER --no-evidence 2>&1 | grep -E "^VIOLATION|^KNOWN|clause=|tier=|HARNESS" | cut -c1-260 | head -8
-git -C /repo checkout -- . 
+# usage: vf/seedrun.sh <patch.diff> <property> [tier]   -- applies a seeded change to the repository (/repo, or the scratch
+# worktree named by VERIF_REPO during development), runs the check, reverts.
+P=$1; ID=$2; TIER=${3:-quick}; R=${VERIF_REPO:-/repo}
+git -C $R diff --quiet || { echo "$R not clean"; exit 3; }
+git -C $R apply "$P" || exit 3
+cd /verif && VERIF_REPO=$R ./check $ID --tier $TIER --no-evidence 2>&1 | grep -E "^VIOLATION|^KNOWN|clause=|tier=|HARNESS" | cut -c1-260 | head -8
+git -C $R checkout -- .
